@@ -353,6 +353,10 @@ type GenOptsCommon struct {
 	WantsRootedErrorPath   bool
 
 	templates *Repository // a shallow clone of the global template repository
+
+	// generatedTargets remembers which spec object every output file was generated from,
+	// so that two objects mangled to the same file name are reported instead of overwritten
+	generatedTargets map[string]string
 }
 
 // CheckOpts carries out some global consistency checks on options.
@@ -641,6 +645,10 @@ func (g *GenOpts) write(t *TemplateOpts, data interface{}) error {
 		return fmt.Errorf("failed to resolve template location for template %s: %w", t.Name, err)
 	}
 
+	if err := g.checkTargetCollision(t, data, filepath.Join(dir, fname)); err != nil {
+		return err
+	}
+
 	if t.SkipExists && fileExists(dir, fname) {
 		debugLog("skipping generation of %s because it already exists and skip_exist directive is set for %s",
 			filepath.Join(dir, fname), t.Name)
@@ -687,6 +695,27 @@ func (g *GenOpts) write(t *TemplateOpts, data interface{}) error {
 		return fmt.Errorf("failed to write file %q in %q: %w", fname, dir, writeerr)
 	}
 	return err
+}
+
+// checkTargetCollision fails when the target file has already been generated from a spec object
+// with a different name: name mangling is many-to-one (e.g. "a-b" and "a_b"), and writing both
+// objects to the same file would silently drop one of them.
+func (g *GenOpts) checkTargetCollision(t *TemplateOpts, data interface{}, target string) error {
+	var name string
+	if fld := reflect.Indirect(reflect.ValueOf(data)).FieldByName("Name"); fld.IsValid() && fld.Kind() == reflect.String {
+		name = fld.String()
+	}
+	source := fmt.Sprintf("%q (template %s)", name, t.Name)
+
+	if g.generatedTargets == nil {
+		g.generatedTargets = make(map[string]string)
+	}
+	if previous, ok := g.generatedTargets[target]; ok && previous != source {
+		return fmt.Errorf("cannot generate %s: both %s and %s map to this file name. Use x-go-name or rename one of them", target, previous, source)
+	}
+	g.generatedTargets[target] = source
+
+	return nil
 }
 
 func fileName(in string) string {
